@@ -743,11 +743,19 @@ class Interp:
                     if self.g is False:
                         dead = True
                 except _Restart:
+                    # the merge/fork configuration changed (an `if` or loop was found unmergeable): decision
+                    # prefixes recorded under the old configuration no longer line up -> explore again from scratch
                     self.stats["restarts"] += 1
-                    continue
-                except _PathAbort:
-                    r = None
+                    stack = [[]]
+                    out = []
                     break
+                except _PathAbort:
+                    # neither polarity of a decision is satisfiable: only legitimate when an assumed (deferred)
+                    # unwinding assertion is false, i.e. a loop needs more unrolling
+                    if self.ctx.unwind and not self._check_unwind(self.ctx):
+                        self.stats["restarts"] += 1
+                        continue
+                    raise NotEncodable("inconsistent path condition (no polarity of a decision is satisfiable)")
                 ctx = self.ctx
                 for ent in ctx.memo.values():          # side conditions of memoised evaluations, under the guards of their uses
                     if ent["side"]:
@@ -2125,7 +2133,7 @@ def prove(I, thunk, assumptions, variables, native, tally, timeout_s=60, expect=
 # ------------------------------------------------------------------------------------------------
 def obligations(pid, clause, config, I, thunk, variables, assumptions, native, tally, *, text="", timeout_s=60,
                 expect=None, block_of=None, known=None, cross_check=None, minimize=True, describe=None,
-                max_witnesses=8, stretch=False):
+                max_witnesses=8, stretch=False, config_level=False):
     """Run prove() and turn the outcome into obligation dicts (kverif.common.ob).
 
     Known findings: a witness that matches an entry of known_findings.json (same property, clause, config
@@ -2174,6 +2182,8 @@ def obligations(pid, clause, config, I, thunk, variables, assumptions, native, t
 
     def on_witness(wit):
         probe = dict(clause=clause, config=config, witness=wit)
+        if config_level:
+            return None         # the listed finding is about the configuration as a whole: one witness is enough
         if common.known_match(known, pid, probe) is not None:
             return mk_block(wit)
         if block_of is not None:
@@ -2224,6 +2234,8 @@ def obligations(pid, clause, config, I, thunk, variables, assumptions, native, t
         out.append(common.ob(clause, config, "error", what=res["note"], stretch=stretch))
     elif res["status"] == "inconclusive":
         out.append(common.ob(clause, config, "inconclusive", what=res["note"], stretch=stretch))
+    elif all_known and config_level:
+        pass
     elif all_known and "cut off" not in res["note"]:
         blocked = ", ".join(str(w["witness"]) for w in res["witnesses"])
         out.append(common.ob(clause, config + " minus known findings", "holds",
